@@ -71,8 +71,10 @@ def phase_diagrams(run, repo):
             run.check(good, 'AXIS.argmin', 'PhaseDiagram.get_GoRT_1D', 'stable phase per grid point',
                       '[%s] the arg-min must run over the %d reactions at each of the %d grid points; got %s'
                       % (label, nr, nx, show(stable, 200)), owner.module, fn)
-        # 2-D
-        for nx2 in (1, 2, 3):
+        # 2-D: every assignment of the scan variables (temperature first, second, or fixed), with and without units
+        for nx2, (n1, n2, units2) in itertools.product((1, 2, 3), (('T', 'P', None), ('T', 'P', 'kJ/mol'),
+                                                                  ('P', 'T', 'kJ/mol'), ('P', 'P_B', 'kJ/mol'),
+                                                                  ('P', 'T', None))):
             I = Interp(repo, max_depth=10)
             D = I.D
             rx = [rxn_obj(I, 'rxn%d' % i) for i in range(nr)]
@@ -82,9 +84,10 @@ def phase_diagrams(run, repo):
             ys = ListV([D.sym('y%d' % j) for j in range(nx2)])
             owner, fn = repo.find_method(ci, 'get_GoRT_2D')
             run.fn(owner.qual + '.get_GoRT_2D')
-            out = I.call_method(pd, 'get_GoRT_2D', [], {'x1_name': 'T', 'x1_values': xs, 'x2_name': 'P',
-                                                        'x2_values': ys})
-            label = '2D reactions=%d grid=%dx%d' % (nr, nx, nx2)
+            fixed = {} if 'T' in (n1, n2) else {'T': D.sym('Tfix')}
+            out = I.call_method(pd, 'get_GoRT_2D', [], dict({'x1_name': n1, 'x1_values': xs, 'x2_name': n2,
+                                                             'x2_values': ys, 'G_units': units2}, **fixed))
+            label = '2D reactions=%d grid=%dx%d x1=%s x2=%s units=%s' % (nr, nx, nx2, n1, n2, units2)
             n += 1
             if not (isinstance(out, ListV) and len(out) == 2):
                 run.fail('REF.table', 'PhaseDiagram.get_GoRT_2D', 'result', '[%s] unexpected result %s'
@@ -94,14 +97,17 @@ def phase_diagrams(run, repo):
             ok = isinstance(G, ListV) and len(G) == nr
             if ok:
                 for i, j, k in itertools.product(range(nr), range(nx), range(nx2)):
-                    w = rx[i].opaque_methods['get_delta_GoRT'](I, rx[i], [], {'T': xs.items[j], 'P': ys.items[k]}) \
-                        / nf.items[i]
+                    kw = dict(fixed, **{n1: xs.items[j], n2: ys.items[k]})
+                    w = rx[i].opaque_methods['get_delta_GoRT'](I, rx[i], [], kw) / nf.items[i]
+                    if units2:
+                        w = w * D.sym('kb') * D.sym('Na') * D.sym('U<kJ>') * kw['T']
                     try:
                         ok = ok and same(G.items[i].items[j].items[k], w)
                     except (AttributeError, IndexError):
                         ok = False
             run.check(ok, 'REF.table', 'PhaseDiagram.get_GoRT_2D', 'tabulated energies',
-                      '[%s] tabulated entry [i][j][k] is not dG_i(x1_j, x2_k)/nf_i' % label, owner.module, fn)
+                      '[%s] tabulated entry [i][j][k] is not dG_i(x1_j, x2_k)/nf_i%s' % (
+                          label, ' times R*T at that grid point' if units2 else ''), owner.module, fn)
             good = isinstance(stable, ListV) and len(stable) == nx
             if good:
                 for j, k in itertools.product(range(nx), range(nx2)):
